@@ -236,6 +236,8 @@ CHECKS["C11"] = dict(
     level_note="Power-loss model: ordered namespace journal, unsynced data lost from any point, rename may be durable before data. Durability of the rename itself is not demanded (the code never fsyncs the directory): an earlier complete snapshot is accepted when later renames are lost.",
     assumptions=["the vfs shim (overlay: os -> vfs in silence.go and nflog.go) implements create/truncate/write-at-offset/sync/rename/remove faithfully", "firmware that lies about flushes, bit rot and directory-entry reordering are out of scope"],
     units=[dict(pkg="silence", test="TestVerifC11Silences", shards_quick=8, shards_thorough=16, budget_quick=200, budget_thorough=1500),
+           dict(pkg="silence", test="TestVerifC11Sched", gomaxprocs=1, shards_quick=1, shards_thorough=1, budget_quick=100, budget_thorough=600),
+           dict(pkg="nflog", test="TestVerifC11NflogSched", gomaxprocs=1, shards_quick=1, shards_thorough=1, budget_quick=100, budget_thorough=600),
            dict(pkg="nflog", test="TestVerifC11Nflog", shards_quick=8, shards_thorough=16, budget_quick=200, budget_thorough=1500)],
 )
 
